@@ -51,6 +51,6 @@ def init_configs():
 
 
 def contracts():
-    from contracts import priors
+    from contracts import adaptive, priors
 
-    return [solvers.step_contract(c) for c in configs("thorough")] + [solvers.init_contract(c, w) for c, w in init_configs()] + priors.init_contracts()
+    return [solvers.step_contract(c) for c in configs("thorough")] + [solvers.init_contract(c, w) for c, w in init_configs()] + priors.init_contracts() + [adaptive.fixed_grid_fold_contract()]
